@@ -23,23 +23,32 @@ EntRaw(o) == TLCEval([i \in DOMAIN o.keys |-> <<o.keys[i], Looked(o, o.keys[i])[
 Ent(cfg, o) == IF Ordered(cfg) THEN EntRaw(o)
                ELSE SortSeq(EntRaw(o), LAMBDA a, b : a[1] < b[1])
 
+\* Keys (and, in a TreeBidiMap, values) that the comparator cannot tell apart are ONE key / value: which
+\* representative a lookup hands back is free (the two trees of a TreeBidiMap may each keep their own)
+GetKeyOK(cfg, s, v, ret) ==
+  LET h == VHits(cfg, s, v) IN
+  IF h = {} THEN ret = <<cfg.zero, FALSE>>
+  ELSE ret[2] = TRUE /\ KeyEq(cfg, ret[1], K(s[CHOOSE i \in h : TRUE]))
+VRanks(cfg, vs) == [i \in DOMAIN vs |-> IF cfg.vsorted THEN Rank(cfg.vcmp, vs[i]) ELSE vs[i]]
+ValsBagOK(cfg, vals, s) == SameBag(VRanks(cfg, vals), VRanks(cfg, Vals(s)))
+
 \* ---- well-formedness of one observation -------------------------------------------------------
 ObsWF(cfg, o) ==
   LET s == Ent(cfg, o) IN
   /\ o.size = Len(o.keys)
   /\ Len(o.vals) = Len(o.keys)
   /\ OneKeyEach(cfg, s)                                            \* every live key exactly once
-  /\ IF cfg.aligned THEN o.vals = Vals(s) ELSE SameBag(o.vals, Vals(s))
+  /\ IF cfg.aligned THEN o.vals = Vals(s) ELSE ValsBagOK(cfg, o.vals, s)
   /\ \A i \in DOMAIN o.get : <<o.get[i][2], o.get[i][3]>> = GetRet(cfg, s, o.get[i][1], cfg.zero)
   /\ (cfg.bidi => /\ OneToOne(cfg, s)
                   /\ \A i \in DOMAIN o.getkey :
-                       <<o.getkey[i][2], o.getkey[i][3]>> = GetKeyRet(cfg, s, o.getkey[i][1], cfg.zero))
+                       GetKeyOK(cfg, s, o.getkey[i][1], <<o.getkey[i][2], o.getkey[i][3]>>))
 
 RetOK(cfg, s, e) ==
   CASE e.op = "Get"    -> e.r = GetRet(cfg, s, e.a.i, cfg.zero)
-    [] e.op = "GetKey" -> e.r = GetKeyRet(cfg, s, e.a.v, cfg.zero)
+    [] e.op = "GetKey" -> GetKeyOK(cfg, s, e.a.v, e.r)
     [] e.op = "Keys"   -> IF Ordered(cfg) THEN e.r = <<Keys(s)>> ELSE SameBag(e.r[1], Keys(s))
-    [] e.op = "Values" -> IF cfg.aligned THEN e.r = <<Vals(s)>> ELSE SameBag(e.r[1], Vals(s))
+    [] e.op = "Values" -> IF cfg.aligned THEN e.r = <<Vals(s)>> ELSE ValsBagOK(cfg, e.r[1], s)
     [] e.op = "Size"   -> e.r = <<Len(s)>>
     [] e.op = "Empty"  -> e.r = <<s = <<>> >>
     [] e.op = "String" -> e.r = <<NameOf(e.kind)>>
@@ -128,9 +137,9 @@ C10(pre, e) ==
     /\ TransOK(cfg, s, e, t)
     /\ OneToOne(cfg, t) /\ OneKeyEach(cfg, t)
     /\ o.size = Len(o.keys) /\ o.size = Len(o.vals)
-    /\ SameBag(o.vals, Vals(t))
+    /\ ValsBagOK(cfg, o.vals, t)
     /\ \A i \in DOMAIN o.get : <<o.get[i][2], o.get[i][3]>> = GetRet(cfg, t, o.get[i][1], cfg.zero)
-    /\ \A i \in DOMAIN o.getkey : <<o.getkey[i][2], o.getkey[i][3]>> = GetKeyRet(cfg, t, o.getkey[i][1], cfg.zero)
+    /\ \A i \in DOMAIN o.getkey : GetKeyOK(cfg, t, o.getkey[i][1], <<o.getkey[i][2], o.getkey[i][3]>>)
     /\ RetOK(cfg, s, e)
 
 C15(pre, e) ==
